@@ -37,5 +37,27 @@ CLAIMED["C02"] = {
              "Model/Arith.v + Model/Values.v tied by correspondence (sampling); tools/translate/pred_gen.py (fail-closed)."),
     "technique": "Coq proof over hand + generated Gallina models, vm_compute correspondence against the interpreter",
 }
+CLAIMED["C06"] = {
+    "text": ("Theorems in coq/Props/C06.v over all nested data values (structural induction, no depth bound): == is reflexive (NaN-free values), "
+             "symmetric and transitive; different kinds are never equal, ints/decimals are equal iff their exact values are (any magnitude); sets and "
+             "maps are equal regardless of insertion order; equal values are interchangeable for membership, lookup, removal and == on containers; "
+             "no sequence of add/remove (put/remove) operations yields a set with two equal elements (a map with two equal keys). The model of __eq__ "
+             "and of the host's hash containers is tied to values.py by a vm_compute correspondence (pairs, operation sequences) and the laws are "
+             "also searched on the implementation (hash agreement, representatives, all insertion orders of <= 5 elements, interpreted programs)."),
+    "note": ("Coq kernel + vm_compute; PrimFloat/Prim2SF primitives only to read off the exact value of a float; NaN excluded by the guard nan_free "
+             "(known finding C06-F1); hash compatibility with == is observed on the implementation, not proved; hand model tied by sampling."),
+    "technique": "Coq proof over a hand Gallina model of value equality and hash containers + vm_compute correspondence",
+}
+CLAIMED["C07"] = {
+    "text": ("Theorems in coq/Props/C07.v: on same-kind values < is irreflexive, asymmetric, transitive, respects ==, and trichotomous (NaN-free), "
+             "for numbers (exact values of ints and decimals together), strings (code points, proper prefix first), booleans, dates, patterns and "
+             "lists of any nesting (element-wise lexicographic) - structural induction, no bound; <= > >= compare are the stated derivations; "
+             "the insertion sort of sorted() returns a permutation that is ordered (given an asymmetric comparison) and keeps every class of mutually "
+             "non-less elements in its original order (stability), for lists of any length and any key/cmp. Tie: vm_compute correspondence on "
+             "same-kind pairs and on sorted() with/without key/cmp, plus set/map-key enumeration and min/max against the stated order."),
+    "note": ("Coq kernel + vm_compute; PrimFloat/Prim2SF primitives; cross-kind comparison (rendered text in the code) is outside the property and "
+             "not modelled; NaN excluded (known finding C07-F3); min/max (written in the language) are decided by correspondence only."),
+    "technique": "Coq proof over a hand Gallina model of the value order and of sorted + vm_compute correspondence",
+}
 
 NOT_APPLICABLE = {}
